@@ -324,12 +324,12 @@ example :
     ∧ allAccepted exO true exAction.inArgs exKw = some true
     ∧ (asyncCallSend exO C06Types.escapeExtra C06Types.nsAttrQuoted exAction exKw).1.map (fun r => (r.url, r.body)) =
         [("http://192.168.1.10:8080/ctl/rc".toList,
-          ("<?xml version=\"1.0\"?><s:Envelope s:encodingStyle=\"http://schemas.xmlsoap.org/soap/encoding/\"" ++
-           " xmlns:s=\"http://schemas.xmlsoap.org/soap/envelope/\"><s:Body>" ++
-           "<u:SetVolume xmlns:u='urn:acme&amp;co:service:R\"C:1'>" ++
-           "<InstanceID>1</InstanceID>\n<Channel>a&lt;b&#13;&amp;</Channel>\n<DesiredVolume>100</DesiredVolume>\n<Mute>0</Mute>" ++
-           "\n<Since>2024-02-29T23:59:59-05:30</Since>\n<Born>0987-02-28</Born>" ++
-           "</u:SetVolume></s:Body></s:Envelope>").toList)]
+          "<?xml version=\"1.0\"?><s:Envelope s:encodingStyle=\"http://schemas.xmlsoap.org/soap/encoding/\"".toList ++
+           " xmlns:s=\"http://schemas.xmlsoap.org/soap/envelope/\"><s:Body>".toList ++
+           "<u:SetVolume xmlns:u='urn:acme&amp;co:service:R\"C:1'>".toList ++
+           "<InstanceID>1</InstanceID>\n<Channel>a&lt;b&#13;&amp;</Channel>\n<DesiredVolume>100</DesiredVolume>\n<Mute>0</Mute>".toList ++
+           "\n<Since>2024-02-29T23:59:59-05:30</Since>\n<Born>0987-02-28</Born>".toList ++
+           "</u:SetVolume></s:Body></s:Envelope>".toList)]
     ∧ (asyncCallSend exO C06Types.escapeExtra C06Types.nsAttrQuoted exAction (("DesiredVolume".toList, .int 101) :: exKw)).2
         = some .upnpValueError
     ∧ (asyncCallSend exO C06Types.escapeExtra C06Types.nsAttrQuoted exAction (exKw.drop 1)).2 = some .upnpError := by
